@@ -26,6 +26,7 @@ def main():
     args = ap.parse_args()
     seed = int(os.environ.get('VERIF_SEED', '20260926'))
     ctx = common.Ctx(args.pid, args.tier, seed)
+    ctx.debug = bool(args.no_proof or args.replay)      # debugging / replay runs never overwrite the evidence file
     try:
         mod = importlib.import_module(f'props.{args.pid.lower()}')
     except ImportError:
